@@ -14,6 +14,8 @@ import (
 
 	"github.com/cosmos/cosmos-proto/zzverif/proj"
 	"github.com/cosmos/cosmos-proto/zzverif/val"
+	"google.golang.org/protobuf/encoding/protojson"
+	"google.golang.org/protobuf/encoding/prototext"
 	"google.golang.org/protobuf/proto"
 	"google.golang.org/protobuf/reflect/protoreflect"
 	"google.golang.org/protobuf/reflect/protoregistry"
@@ -56,6 +58,14 @@ type Event struct {
 	RefSt   J      `json:"ref_st,omitempty"`  // twin projection
 	RefErr  string `json:"ref_err,omitempty"`
 	Case    int    `json:"case"`
+	Equal     bool   `json:"equal"`      // lib: proto.Equal(current, other)
+	RefEqual  bool   `json:"ref_equal"`
+	EqualSelf bool   `json:"equal_self"` // Equal(m, m), Equal(m, Clone(m)), Equal(pulsar, dynamic twin)
+	CloneOk   bool   `json:"clone_ok"`   // clone equal and independent
+	InitOk    bool   `json:"init_ok"`
+	JSONOk    bool   `json:"json_ok"`    // protojson both directions agree with the reference
+	TextOk    bool   `json:"text_ok"`
+	LibNote   string `json:"lib_note,omitempty"`
 	StBefore J      `json:"st_before,omitempty"` // alias ops: projection before the disturbance
 	OutBefore []int `json:"out_before"`
 	ROChanged []string `json:"ro_changed"`      // readonly: read-only calls after which the Go struct differed
@@ -269,6 +279,88 @@ func (r *codecRunner) run(op Op) {
 		rb, _ := o.Marshal(r.d)
 		e.RefOut = proj.Bytes(rb)
 		e.RefOk = true
+	case "lib":
+		// C10: generic algorithms on (current message, other = op.V) for pulsar and the twins
+		other := newPulsar(r.mt)
+		otherD := dynamicpb.NewMessage(r.md)
+		proj.Fill(proj.Impl(other), op.V, proj.WrapImpl)
+		proj.Fill(otherD.ProtoReflect(), op.V, proj.WrapNone)
+		note := func(f string, a ...any) { e.LibNote += fmt.Sprintf(f, a...) + "; " }
+		e.Panic = catch(func() {
+			e.Equal = proto.Equal(r.p, other)
+			e.RefEqual = proto.Equal(r.d, otherD)
+			cl := proto.Clone(r.p)
+			e.EqualSelf = proto.Equal(r.p, r.p) && proto.Equal(r.p, cl) && proto.Equal(cl, r.p) && proto.Equal(r.p, r.d) && proto.Equal(r.d, r.p)
+			// the clone is deep: overwriting everything it owns leaves the original unchanged
+			before := proj.Project(proj.Impl(r.p), proj.WrapImpl)
+			scribbleOwned(reflect.ValueOf(cl))
+			proto.Reset(cl)
+			e.CloneOk = jsonEq(before, proj.Project(proj.Impl(r.p), proj.WrapImpl)) && reflect.TypeOf(cl) == reflect.TypeOf(r.p)
+			e.InitOk = proto.CheckInitialized(r.p) == nil && proto.CheckInitialized(other) == nil
+			// JSON / text: pulsar output parses (reference parser, into the reference message) to the
+			// twin's value; the reference's output parses INTO pulsar (library-driven Set/Mutable/
+			// Append/NewField) to the same value
+			e.JSONOk, e.TextOk = true, true
+			// --- JSON: same document as the reference produces (compared as parsed JSON, since the
+			// library randomises whitespace); the reference's document parsed INTO pulsar gives
+			// what it gives parsed into the reference
+			refJ, refErr := protojson.Marshal(r.d)
+			pJ, pErr := protojson.Marshal(r.p)
+			switch {
+			case (refErr == nil) != (pErr == nil):
+				e.JSONOk = false
+				note("protojson.Marshal: pulsar err=%v reference err=%v", pErr, refErr)
+			case refErr == nil:
+				var a, b any
+				json.Unmarshal(refJ, &a)
+				json.Unmarshal(pJ, &b)
+				if !reflect.DeepEqual(a, b) {
+					e.JSONOk = false
+					note("protojson output differs from the reference: %s vs %s", trunc(string(pJ), 150), trunc(string(refJ), 150))
+				}
+				into := newPulsar(r.mt)
+				intoD := dynamicpb.NewMessage(r.md)
+				e1 := protojson.Unmarshal(refJ, into)
+				e2 := protojson.Unmarshal(refJ, intoD)
+				if (e1 == nil) != (e2 == nil) {
+					e.JSONOk = false
+					note("protojson.Unmarshal: pulsar err=%v reference err=%v", e1, e2)
+				} else if e1 == nil && !jsonEq(proj.Normalize(proj.Project(proj.Impl(into), proj.WrapImpl), r.md), proj.Normalize(proj.Project(intoD.ProtoReflect(), proj.WrapNone), r.md)) {
+					e.JSONOk = false
+					note("JSON parsed into pulsar differs from JSON parsed into the reference")
+				}
+			}
+			// --- text format, same scheme (documents compared by parsing both with the reference)
+			refT, refTErr := prototext.Marshal(r.d)
+			pT, pTErr := prototext.Marshal(r.p)
+			switch {
+			case (refTErr == nil) != (pTErr == nil):
+				e.TextOk = false
+				note("prototext.Marshal: pulsar err=%v reference err=%v", pTErr, refTErr)
+			case refTErr == nil:
+				x, y := dynamicpb.NewMessage(r.md), dynamicpb.NewMessage(r.md)
+				ex, ey := prototext.Unmarshal(refT, x), prototext.Unmarshal(pT, y)
+				if (ex == nil) != (ey == nil) || (ex == nil && !proto.Equal(x, y)) {
+					e.TextOk = false
+					note("prototext output differs from the reference (%v / %v)", ex, ey)
+				}
+				if ex == nil {
+					into := newPulsar(r.mt)
+					if err := prototext.Unmarshal(refT, into); err != nil {
+						e.TextOk = false
+						note("prototext.Unmarshal into pulsar: %v", err)
+					} else if !jsonEq(proj.Normalize(proj.Project(proj.Impl(into), proj.WrapImpl), r.md), proj.Normalize(proj.Project(x.ProtoReflect(), proj.WrapNone), r.md)) {
+						e.TextOk = false
+						note("text parsed into pulsar differs from text parsed into the reference")
+					}
+				}
+			}
+			// Merge(current, other) on pulsar and on the twin
+			proto.Merge(r.p, other)
+			proto.Merge(r.d, otherD)
+		})
+		e.Ok, e.RefOk = e.Panic == "", true
+		r.project(e)
 	case "alias_in":
 		// C07: decode from a caller buffer, then overwrite that buffer: the message must not notice
 		in := append(make([]byte, 0, len(op.In)+8), proj.ToBytes(op.In)...)
@@ -476,6 +568,15 @@ func randomCodecPlan(g *val.Gen, mt protoreflect.MessageType, mode string, emit 
 	if is("det") {
 		emit(Op{Op: "marshal", Det: true, Tag: "det"})
 		emit(Op{Op: "marshal", Det: true, Tag: "det"})
+	}
+	if mode == "lib" {
+		d2 := g.Dynamic(md)
+		v2 := proj.Project(d2.ProtoReflect(), proj.WrapNone)
+		emit(Op{Op: "lib", V: v2, Tag: "lib"})
+		emit(Op{Op: "marshal", Det: true, Tag: "lib"})
+		emit(Op{Op: "lib", V: v, Tag: "lib-self"}) // merge the original value onto the merged one
+		emit(Op{Op: "reset", Tag: "lib"})
+		emit(Op{Op: "lib", V: v2, Tag: "lib-onto-empty"})
 	}
 	if mode == "mem" {
 		x := b
@@ -803,4 +904,31 @@ func snapshot(v reflect.Value) string {
 	}
 	walk(v, 0)
 	return sb.String()
+}
+
+func hasNestedUnknown(m protoreflect.Message) bool {
+	found := false
+	m.Range(func(fd protoreflect.FieldDescriptor, v protoreflect.Value) bool {
+		switch {
+		case fd.IsMap() && fd.MapValue().Message() != nil:
+			v.Map().Range(func(_ protoreflect.MapKey, mv protoreflect.Value) bool {
+				if len(mv.Message().GetUnknown()) > 0 || hasNestedUnknown(mv.Message()) {
+					found = true
+				}
+				return !found
+			})
+		case fd.IsList() && fd.Message() != nil:
+			for i := 0; i < v.List().Len(); i++ {
+				if len(v.List().Get(i).Message().GetUnknown()) > 0 || hasNestedUnknown(v.List().Get(i).Message()) {
+					found = true
+				}
+			}
+		case fd.Message() != nil && !fd.IsMap() && !fd.IsList():
+			if len(v.Message().GetUnknown()) > 0 || hasNestedUnknown(v.Message()) {
+				found = true
+			}
+		}
+		return !found
+	})
+	return found
 }
